@@ -109,8 +109,38 @@ func secretScope(r *lib.Rand, base evalgen.Scope) (evalgen.Scope, *secrets, []st
 		}
 	}
 	sort.Strings(names)
+	// which secrets carry their mark on the very value that holds them (element by element), rather than
+	// only on an enclosing collection: the recorded root cause of unmarked iteration variables does not
+	// apply to them — an iteration over such a collection hands out elements that are marked themselves
+	leafMarked = map[string]bool{}
+	for _, n := range names {
+		_ = cty.Walk(s[n], func(_ cty.Path, v cty.Value) (bool, error) {
+			if v.IsMarked() {
+				u, _ := v.Unmark()
+				if u.IsKnown() && !u.IsNull() {
+					var text string
+					switch u.Type() {
+					case cty.String:
+						text = u.AsString()
+					case cty.Number:
+						text = u.AsBigFloat().Text('f', -1)
+					}
+					for _, t := range sc.texts {
+						if text != "" && strings.Contains(text, t) {
+							leafMarked[t] = true
+						}
+					}
+				}
+				return false, nil
+			}
+			return true, nil
+		})
+	}
 	return s, sc, names
 }
+
+// leafMarked: see secretScope (the checks run one scope at a time).
+var leafMarked = map[string]bool{}
 
 // ---------------------------------------------------------------------------
 // the leak check
@@ -214,7 +244,10 @@ func checkDiags(cx *lib.Ctx, diags hcl.Diagnostics, files map[string]*hcl.File, 
 								key = "leak:textwriter-with-for-scope-variable"
 							}
 							if ty := v.Type(); ty.IsObjectType() && ty.HasAttribute("key") && ty.HasAttribute("value") && len(ty.AttributeTypes()) == 2 {
-								key = "leak:textwriter-with-dynblock-iterator"
+								key = "leak:textwriter-with-dynblock-iterator:for_each-not-marked-as-a-whole"
+								if _, outer := markedIteration(d, files, t); outer {
+									key = "leak:textwriter-with-dynblock-iterator"
+								}
 							}
 						}
 					}
@@ -392,6 +425,14 @@ var bodyFamilies = []struct {
 	{"dynamic \"svc\" {\n  for_each = sec_n\n  labels = [\"x\"]\n  content {\n    a = 1\n  }\n}\n", mapSpec("blockmap")},
 	{"dynamic \"svc\" {\n  for_each = sec_list\n  iterator = it\n  labels = [\"l\"]\n  content {\n    a = it.value\n  }\n}\n", mapSpec("blockmap")},
 	{"dynamic \"svc\" {\n  for_each = sec_list\n  iterator = it\n  labels = [it.value]\n  content {\n    a = it.value + 1\n  }\n}\n", mapSpec("blockmap")},
+	// collections whose elements are marked one by one (the collection itself is not): the iterator hands out the
+	// marked elements, in labels and in content
+	{"dynamic \"svc\" {\n  for_each = sec_list_el\n  labels = [\"l${svc.key}\"]\n  content {\n    a = svc.value + 1\n  }\n}\n", mapSpec("blockmap")},
+	{"dynamic \"svc\" {\n  for_each = sec_map_el\n  labels = [svc.key]\n  content {\n    a = svc.value.x\n  }\n}\n", mapSpec("blockmap")},
+	{"dynamic \"svc\" {\n  for_each = sec_nested.items\n  iterator = it\n  labels = [\"l${it.key}\"]\n  content {\n    a = it.value[0]\n  }\n}\n", mapSpec("blockmap")},
+	{"dynamic \"svc\" {\n  for_each = sec_list_el\n  labels = [svc.value]\n  content {\n    a = 1\n  }\n}\ndynamic \"svc\" {\n  for_each = sec_list_el\n  labels = [svc.value]\n  content {\n    a = 2\n  }\n}\n", mapSpec("blockmap")},
+	{"dynamic \"svc\" {\n  for_each = sec_map_el\n  labels = [svc.value]\n  content {\n    a = 1\n  }\n}\ndynamic \"svc\" {\n  for_each = sec_map_el\n  labels = [svc.value]\n  content {\n    a = 2\n  }\n}\n", mapSpec("blockobject")},
+	{"dynamic \"svc\" {\n  for_each = [sec_s, sec_s]\n  labels = [svc.value]\n  content {\n    a = svc.value * 2\n  }\n}\n", mapSpec("blockmap")},
 	{"svc \"x\" {\n  a = sec_s\n}\nsvc \"x\" {\n  a = sec_n\n}\n", mapSpec("blockmap")},
 	{"a = sec_s\n", []evalgen.SpecItem{{Kind: "attr", Name: "a", Type: rawType(cty.Number)}}},
 	{"a = sec_list\n", []evalgen.SpecItem{{Kind: "attr", Name: "a", Type: rawType(cty.Number)}}},
@@ -621,7 +662,7 @@ func markedIteration(d *hcl.Diagnostic, files map[string]*hcl.File, t string) (o
 	for c := d.EvalContext; c != nil && c.Parent() != nil; c = c.Parent() {
 		for _, v := range c.Variables {
 			if ty := v.Type(); ty.IsObjectType() && ty.HasAttribute("key") && ty.HasAttribute("value") && len(ty.AttributeTypes()) == 2 {
-				if scopeHoldsUnmarked(&hcl.EvalContext{Variables: map[string]cty.Value{"it": v}}, t) {
+				if scopeHoldsUnmarked(&hcl.EvalContext{Variables: map[string]cty.Value{"it": v}}, t) && forEachMarkedAtTop(d, files) {
 					outer = true
 				}
 			}
@@ -680,6 +721,45 @@ func markedIteration(d *hcl.Diagnostic, files map[string]*hcl.File, t string) (o
 		}
 	}
 	return own, outer
+}
+
+// forEachMarkedAtTop: does a dynamic block around the diagnostic's subject iterate over a collection that is
+// marked as a whole (the recorded root cause: its elements are then handed out without that mark)?  A
+// collection that is not marked itself but holds marked elements hands those out as they are.  JSON files and
+// anything that cannot be located count as "yes" (the coarser attribution used before).
+func forEachMarkedAtTop(d *hcl.Diagnostic, files map[string]*hcl.File) bool {
+	f := files[d.Subject.Filename]
+	if f == nil || strings.HasSuffix(d.Subject.Filename, ".json") {
+		return true
+	}
+	cf, diags := hclsyntax.ParseConfig(f.Bytes, d.Subject.Filename, hcl.InitialPos)
+	if diags.HasErrors() {
+		return true
+	}
+	found, marked := false, false
+	var walk func(b *hclsyntax.Body)
+	walk = func(b *hclsyntax.Body) {
+		for _, blk := range b.Blocks {
+			r := blk.Range()
+			r.End = blk.CloseBraceRange.End
+			if !(r.Start.Byte <= d.Subject.Start.Byte && d.Subject.End.Byte <= r.End.Byte) {
+				continue
+			}
+			if blk.Type == "dynamic" {
+				if fe, ok := blk.Body.Attributes["for_each"]; ok {
+					found = true
+					for c := d.EvalContext; c != nil; c = c.Parent() {
+						if v, _, p := evalgen.SafeValue(fe.Expr, c); p == "" && v.IsMarked() {
+							marked = true
+						}
+					}
+				}
+			}
+			walk(blk.Body)
+		}
+	}
+	walk(cf.Body.(*hclsyntax.Body))
+	return !found || marked
 }
 
 var shapeQuoted = regexp.MustCompile(`"(?:[^"\\]|\\.)*"`)
